@@ -113,7 +113,7 @@ def run(ctx):
     cases.sort(key=lambda c: json.dumps(c, sort_keys=True))
     total = len(cases)
     if ctx.quick():
-        cases = ctx.subsample(cases, 16000)
+        cases = ctx.subsample_by(cases, lambda c: (c["op"], len(c.get("axes", []))), 1400)
     events = ctx.pmap(execute, cases)
     verdicts = _validate(ctx, events)
     for ev, v in zip(events, verdicts):
